@@ -125,7 +125,7 @@ CLAIMED = {
         text=("Lean theorems for every dimension: with the column calculus D1 (sum of single column replacements = tr(adj M N)) and D2 (ordered pairs "
               "of distinct columns = det M (tr tr - tr of product), proved via det(1 + U V) = det(1 + V U)), the Green's-function energy formula of "
               "uhf equals the mixed estimator written with explicit column replacements, including spin-dependent h1; rhf with restricted walkers "
-              "equals the unrestricted formula on [W, W] and sees exactly the spin average of h1. Tied to the code by rhf/uhf energies vs the Lean "
+              "equals the unrestricted formula on [W, W] and sees exactly the spin average of h1. NOCI's sum_d c_d ov_d E_d / sum_d c_d ov_d is the mixed estimator of the combined bra (linearity). Tied to the code by rhf/uhf energies vs the Lean "
               "model at Q(i) and by all 12 classes / entry points vs the Fock-space estimator (spin-dependent h1 where the property lists it), plus "
               "the eps^2 convergence of the finite-difference kinds."),
         design_ref="DESIGN.md §5/C02",
@@ -136,7 +136,7 @@ CLAIMED = {
         category="proof",
         text=("Lean theorems for every dimension: each uhf force-bias component is the mixed expectation of the spin-summed one-body operator L_g for "
               "the product bra (D1 + trace cyclicity), rhf restricted = unrestricted on [W, W], and the one-body numerator over the overlap is "
-              "tr((C^H W)^-1 C^H O W), the first-order coefficient along 1 + xO. Tied to the code by every component vs the Lean model at Q(i), by all "
+              "tr((C^H W)^-1 C^H O W), the first-order coefficient along 1 + xO. NOCI's overlap-weighted combination is the mixed expectation for the combined bra. Tied to the code by every component vs the Lean model at Q(i), by all "
               "12 classes / entry points vs the Fock-space expectation, and by forward-mode and finite-difference logarithmic derivatives of the "
               "library's own overlap along expm(x L_g)."),
         design_ref="DESIGN.md §5/C03",
@@ -147,13 +147,13 @@ CLAIMED = {
         category="proof",
         text=("Lean theorems for every dimension: for any W = Q R with R invertible, overlap(W) = overlap(Q) det R (= product of the diagonal for a "
               "triangular factor), and the Green's function - hence force bias and local energy - of W equals that of Q (restricted and unrestricted); "
-              "an orthonormal basis of the trial's occupied space has overlap det U. Tied to the code by a monitor of jnp.linalg.qr's specification on "
+              "an orthonormal basis of the trial's occupied space has overlap det U. For EVERY trial kind at once: a bra that is a linear functional of products of minors (which all 12 kinds are) has overlap(Qa Ra, Qb Rb) = overlap(Qa, Qb) det Ra det Rb, and every mixed estimator whose operator is a combination of one-body group elements (how the AD kinds evaluate force bias and energy) is unchanged. Tied to the code by a monitor of jnp.linalg.qr's specification on "
               "the call-site routine, by orthonormality / span / overlap x norm / invariance of energy and force bias on complex batches for 8 trial "
               "kinds, by the implementation's overlap(Q) x norm and energy(Q) vs the Lean model's exact values for the original W, and by "
               "get_init_walkers for all classes (shape, count, orthonormality, overlap bounded away from zero or explicit refusal, variational energy)."),
         design_ref="DESIGN.md §5/C13",
         technique="Lean 4 proof (det_mul, mul_inv_rev; single-determinant models) + qr assumption monitor + Q(i) correspondence",
-        note=TB + " qr/eigh are assumed to meet their specification (monitored); the CI kinds' invariance is validated, not proved; 'bounded away from zero' is checked as relative overlap > 1e-3.",
+        note=TB + " qr/eigh are assumed to meet their specification (monitored); the CI kinds are covered by the any-bra theorems under the (validated, C01-C03) premise that the library evaluates them as mixed estimators; 'bounded away from zero' is checked as relative overlap > 1e-3.",
     ),
     "C14": dict(
         category="proof",
@@ -180,15 +180,16 @@ CLAIMED = {
     "C11": dict(
         category="proof",
         text=("Lean theorems: the Dice byte format round-trips through the reader for every number of orbitals; the `parity` loop equals the sign of "
-              "the permutation that sorts the reference string with holes replaced in place by their particles - for ANY reference - proved exhaustively "
-              "for up to 5 orbitals by kernel evaluation (stated as _partial; larger sizes are covered by the exact correspondence of parity with the "
+              "the permutation that sorts the reference string with holes replaced in place by their particles - for ANY reference, any excitation rank and ANY number "
+              "of orbitals (replacing one value of a duplicate-free list changes the inversion parity by the number of entries strictly between; the loop's evolving occupation "
+              "vector and the evolving list describe the same set; sequential = simultaneous replacement) - the per-run correspondence compares parity with the "
               "model's sorting sign); an eigenvector of a symmetric (Hermitian) H used as trial gives <psi|H|phi> = E <psi|phi> for every phi, hence "
               "every block energy equals E whatever the weights. Tied to the code by parity/hole/particle lists and read_dets (incl. malformed bytes) "
               "vs the Lean model, multislater overlaps (both entry points) vs the explicit sum_i c_i |D_i> for random order, reference and cut-off, and "
               "exact eigenvectors (own diagonalisation and pyscf FCI) -> local energies and sampler block energies equal the eigenvalue."),
         design_ref="DESIGN.md §5/C11",
-        technique="Lean 4 proof (round trip by induction, exhaustive kernel evaluation of the sign lemma to 5 orbitals, eigenvector algebra) + exact correspondence + Fock-space spec",
-        note=TB + " The all-size sign lemma and the link sorting-sign -> determinant (det_permute) are not formalised; the multislater energy is a finite difference (tolerance 2e-5); pyscf FCI is an external oracle.",
+        technique="Lean 4 proof (round trip by induction, sign lemma for every size by an inversion-parity invariant, eigenvector algebra) + exact correspondence + Fock-space spec",
+        note=TB + " The link sorting-sign -> determinant (det_permute) is not formalised; the multislater energy is a finite difference (tolerance 2e-5); pyscf FCI is an external oracle.",
     ),
     "C10": dict(
         category="proof",
@@ -196,13 +197,13 @@ CLAIMED = {
               "hence the rank-one ratio 1 + c P_ii and the rank-two ratio (1+c_i P_ii)(1+c_j P_jj) - c_i c_j P_ij P_ji of calc_overlap_ratio; the "
               "Hubbard-Stratonovich identity (c+ + c- = 2, c+ c- = kappa => the field average multiplies an occupation state by kappa^{n_up n_dn}); "
               "row scaling multiplies a minor by the constants of the rows its string contains; site-wise probability x weight / new overlap = 1/(2 old "
-              "overlap). Tied to the code by ratio and Green's-function updates vs from-scratch values for every ordered pair of spin-orbitals (uhf and "
+              "overlap); the updated Green's function satisfies P'(1 + D P) = (1 + D)P for any set of scaled rows, and the code's rank-two update formula (update_greens_function) satisfies the same equation for ANY matrix, hence equals the Green's function of the rescaled walker whenever the overlap ratio is non-zero. Tied to the code by ratio and Green's-function updates vs from-scratch values for every ordered pair of spin-orbitals (uhf and "
               "ghf trials), an HS-constant monitor, fast vs slow propagators (on-site and nearest-neighbour), and the exhaustive sum over all 2^n field "
               "configurations of a real propagate step (branch probabilities measured by bisection) vs exp(-dt K/2) prod exp(-dt U n n) exp(-dt K/2) on "
               "the Fock space. One recorded finding: with Cholesky vectors in ham_data the one-body factor is not exp(-dt K/2)."),
         design_ref="DESIGN.md §5/C10",
         technique="Lean 4 proof (det(1+UV)=det(1+VU) reductions, scalar HS identity) + exhaustive 2^n enumeration on the implementation",
-        note=TB + " The Sherman-Morrison / rank-two Green's-function update is validated against from-scratch values, not proved; expm/erf/arccosh are library calls (HS constants monitored).",
+        note=TB + " The rank-two Green's-function update is proved for the generalised (one block of spin-orbitals) layout; uhf_cpmc's per-spin code is its block-diagonal case and is tied by the from-scratch comparison; expm/erf/arccosh are library calls (HS constants monitored).",
     ),
     "C04": dict(
         category="proof",
